@@ -1,179 +1,501 @@
 """
-C19, client layer: AsyncTCPNetworkClient (clients/async_tcp.py) connects lazily through backend.create_tcp_connection()
-(= the resolver's race).  "The connect is cancelled at any point" also happens through the client: another task calls
-client.aclose() (or cancels wait_connected()) while the connect is suspended in name resolution / in the race.
+C19, client layer: AsyncTCPNetworkClient (clients/async_tcp.py) and AsyncUDPNetworkClient (clients/async_udp.py) connect
+lazily, through backend.create_tcp_connection() (= name resolution + the resolver's staggered race + wrap_stream_socket)
+and backend.create_udp_endpoint() (= name resolution + create_datagram_connection(): one socket per address until one
+connects + the asyncio datagram endpoint).  "The connect is cancelled at any point" also happens through the client:
+another task calls client.aclose() / leaves the client's context (__aexit__), or the task which started the connect is
+cancelled, while the connect is suspended in the name resolution of the remote host, in the name resolution of the
+local host (local_address given by name: a second getaddrinfo await), in the race, or in the creation of the transport.
+
 Case (api "client"):
-   addrs      list of "ok" | "refused"      loopback addresses handed out by the (gated) resolver, in order
-   how        "aclose" | "cancel"           how the connect is interrupted
-   at         k                             loop turns after wait_connected() started
-   release    j                             loop turns after the interruption at which the resolver gate opens (-1: before it)
-   then       "send" | "none"               the pending connect was started by wait_connected() or by send_packet()
-Lines: `wc <outcome>`, `closing <0|1>`, `connected <0|1>`, `srv-open <n>` (server side connections still open),
+   proto      "tcp" | "udp"                      (default "tcp")
+   addrs      list of "ok" | "refused" | "ok6" | "refused6"
+                                                 loopback addresses handed out by the (gated) resolver for the remote
+                                                 name, in order.  tcp refused = bound, not listening port; udp refused =
+                                                 an address to which connect() fails at once (255.255.255.255: EACCES /
+                                                 ENETUNREACH; probed, falls back to an unsupported family = socket() failure)
+   local      None | list of "v4" | "v6" | "v4bad" | "v6bad"
+                                                 local_address=(name, 0); the name resolves to these (127.0.0.1, ::1, a
+                                                 non-local address of that family: bind fails)
+   hed        None | number                      tcp: happy_eyeballs_delay (None = library default, 0 = all attempts at once)
+   then       "none" | "send" | "recv" | "ctx"   the connect is started by wait_connected() / send_packet() /
+                                                 recv_packet() / `async with client`
+   how        "aclose" | "exit" | "cancel" | "none"
+                                                 interruption: another task runs client.aclose() / client.__aexit__(),
+                                                 the starting task is cancelled, or nothing (plain connect)
+   at         k                                  loop turn (counted from the start of the connect) of the interruption
+   g1, g2     loop turns at which the resolver answers for the remote / the local name (-1 = before the connect starts);
+              old form: release j = g1 is j turns after the interruption (-1: before the start)
+Lines: `cfg v6 <0|1>`, `early <0|1>` (the connect had ended / the client was connected when the interruption was issued),
+       `pendingscope n` (how=cancel: a cancel request of a cancel scope was outstanding on the task), `wc <outcome of the
+       starting call>`, `mid connected <0|1>`, `mid fds +n`, `mid srv-live n` (how=none, before the close), `close <…>`,
+       `closing <0|1>`, `connected <0|1>`, `srv-open <n>` (tcp: server side connections still open),
        `fds +n` (descriptors of this process opened since the start and still open at quiescence).
-Everything runs on the real event loop and real loopback sockets; the schedule is fixed by loop turns and an explicit gate.
+Everything runs on the real event loop and real loopback sockets; the schedule is fixed by loop turns and explicit gates.
+Criteria are behaviour-only; a deadline (10 s for steps that take microseconds) which is missed once and not again when
+the case is re-run is an InfraError, never a violation.
 """
 from __future__ import annotations
 
 import asyncio
 import contextlib
+import gc
 import socket
+import time
 from typing import Any
 
 from vlib import c19_env as env
+from vlib import core
+
+REMOTE = "remote.verif.invalid"
+LOCAL = "local.verif.invalid"
+DEADLINE = 10.0
+_hangs = {"confirmed": 0}
+COUNT = {"lost_cancel_known_window": 0}
+_probe: dict[str, Any] = {}
 
 
-def run_client_case(case: dict) -> list[str]:
-    from easynetwork.clients.async_tcp import AsyncTCPNetworkClient
+def _udp_fail_target(fam: int) -> str | None:
+    """an address of family `fam` to which connect() of a datagram socket fails at once on this machine (probed once)"""
+    key = f"udpfail{fam}"
+    if key not in _probe:
+        _probe[key] = None
+        cands = ["255.255.255.255"] if fam == 4 else ["::ffff:255.255.255.255", "fe80::1", "ff02::1"]
+        for ip in cands:
+            try:
+                with socket.socket(socket.AF_INET if fam == 4 else socket.AF_INET6, socket.SOCK_DGRAM) as s:
+                    s.bind(("127.0.0.1" if fam == 4 else "::1", 0))
+                    s.connect((ip, 9))
+            except OSError:
+                _probe[key] = ip
+                break
+    return _probe[key]
+
+
+def _norm(case: dict, v6: bool) -> tuple[list[str], list[str] | None]:
+    """addresses actually used: without a usable IPv6 loopback the IPv6 remote addresses become IPv4 ones"""
+    addrs = [a if v6 else a.rstrip("6") for a in case["addrs"]]
+    loc = case.get("local")
+    return addrs, (None if loc is None else list(loc))
+
+
+def _gates(case: dict) -> tuple[int, int, int]:
+    at = int(case.get("at", 1))
+    if "g1" in case:
+        g1 = int(case["g1"])
+    else:
+        rel = int(case.get("release", 0))
+        g1 = -1 if rel < 0 else at + rel
+    g2 = int(case.get("g2", g1))
+    return at, g1, g2
+
+
+def _classify(e: BaseException) -> str:
     from easynetwork.exceptions import ClientClosedError
+
+    def leaves(x):
+        if isinstance(x, BaseExceptionGroup):
+            for y in x.exceptions:
+                yield from leaves(y)
+        else:
+            yield x
+
+    if isinstance(e, ClientClosedError):
+        return "closed"
+    if isinstance(e, asyncio.CancelledError):
+        return "cancelled"
+    if isinstance(e, BaseExceptionGroup):
+        ls = list(leaves(e))
+        if ls and all(isinstance(x, OSError) for x in ls):
+            return "connfail"
+        return "exc:" + type(e).__name__ + "[" + ",".join(sorted({type(x).__name__ for x in ls})) + "]"
+    if isinstance(e, OSError):
+        return "connfail"
+    return "exc:" + type(e).__name__
+
+
+def _run_once(case: dict, deadline: float) -> list[str]:
+    from easynetwork.clients.async_tcp import AsyncTCPNetworkClient
+    from easynetwork.clients.async_udp import AsyncUDPNetworkClient
     from easynetwork.lowlevel.api_async.backend._asyncio.backend import AsyncIOBackend
-    from easynetwork.protocol import StreamProtocol
+    from easynetwork.protocol import DatagramProtocol, StreamProtocol
     from easynetwork.serializers import StringLineSerializer
 
     lines: list[str] = []
+    udp = case.get("proto", "tcp") == "udp"
+    how = case["how"]
+    then = case.get("then", "none")
+    v6 = env.ipv6_loopback_ok()
+    addrs, local = _norm(case, v6)
+    at, g1, g2 = _gates(case)
+    styp = socket.SOCK_DGRAM if udp else socket.SOCK_STREAM
+    sproto = socket.IPPROTO_UDP if udp else socket.IPPROTO_TCP
 
     async def main() -> None:
         loop = asyncio.get_running_loop()
         before = env.open_fds()
-        srv = socket.socket()
-        srv.bind(("127.0.0.1", 0))
-        srv.listen(8)
-        srv.setblocking(False)
-        port = srv.getsockname()[1]
-        dead = socket.socket()
-        dead.bind(("127.0.0.1", 0))          # bound, not listening: connections are refused
-        dead_port = dead.getsockname()[1]
+        lines.append(f"cfg v6 {int(v6)}")
+        need6 = any(a.endswith("6") for a in addrs)
+        srv: dict[int, socket.socket] = {}
+        dead: dict[int, socket.socket] = {}
+        for fam in (4, 6) if need6 else (4,):
+            af = socket.AF_INET if fam == 4 else socket.AF_INET6
+            host = "127.0.0.1" if fam == 4 else "::1"
+            s = socket.socket(af, styp)
+            s.bind((host, 0))
+            if not udp:
+                s.listen(16)
+                d = socket.socket(af, styp)
+                d.bind((host, 0))            # bound, not listening: connections are refused
+                dead[fam] = d
+            s.setblocking(False)
+            srv[fam] = s
+        port = srv[4].getsockname()[1]
         accepted: list[socket.socket] = []
+        poked: set[int] = set()
 
-        async def acceptor() -> None:
+        async def acceptor(s: socket.socket) -> None:
             while True:
-                c, _ = await loop.sock_accept(srv)
+                c, _ = await loop.sock_accept(s)
+                c.setblocking(False)
                 accepted.append(c)
 
-        acc = loop.create_task(acceptor())
-        gate = asyncio.Event()
+        accs = [] if udp else [loop.create_task(acceptor(s)) for s in srv.values()]
+        gate1, gate2 = asyncio.Event(), asyncio.Event()
+
+        def remote_info() -> list:
+            res = []
+            for a in addrs:
+                fam = 6 if a.endswith("6") else 4
+                af = socket.AF_INET if fam == 4 else socket.AF_INET6
+                host = "127.0.0.1" if fam == 4 else "::1"
+                if a.startswith("ok"):
+                    sa: tuple = (host, srv[fam].getsockname()[1])
+                elif not udp:
+                    sa = (host, dead[fam].getsockname()[1])
+                else:
+                    tgt = _udp_fail_target(fam)
+                    if tgt is None:
+                        af = 9999                    # unsupported family: socket() fails
+                        sa = (host, 9)
+                    else:
+                        sa = (tgt, 9)
+                if fam == 6:
+                    sa = sa + (0, 0)
+                res.append((af, styp, sproto, "", sa))
+            return res
+
+        def local_info() -> list:
+            res = []
+            for l in local or []:
+                if l.startswith("v4"):
+                    res.append((socket.AF_INET, styp, sproto, "", ("203.0.113.7" if l.endswith("bad") else "127.0.0.1", 0)))
+                else:
+                    res.append((socket.AF_INET6, styp, sproto, "", ("2001:db8::1" if l.endswith("bad") else "::1", 0, 0, 0)))
+            return res
 
         class GatedBackend(AsyncIOBackend):
             async def getaddrinfo(self, host, port_, *a, **kw):     # type: ignore[override]
-                await gate.wait()
-                res = []
-                for out in case["addrs"]:
-                    p = port if out == "ok" else dead_port
-                    res.append((socket.AF_INET, socket.SOCK_STREAM, 6, "", ("127.0.0.1", p)))
-                return res
+                if host == LOCAL:
+                    await gate2.wait()
+                    return local_info()
+                await gate1.wait()
+                return remote_info()
 
         backend = GatedBackend()
-        client = AsyncTCPNetworkClient(("verif.invalid", port), StreamProtocol(StringLineSerializer()), backend=backend)
+        kw: dict[str, Any] = {}
+        if local is not None:
+            kw["local_address"] = (LOCAL, 0)
+        if udp:
+            client: Any = AsyncUDPNetworkClient((REMOTE, port), DatagramProtocol(StringLineSerializer()), backend, **kw)
+        else:
+            if case.get("hed") is not None:
+                kw["happy_eyeballs_delay"] = float(case["hed"])
+            client = AsyncTCPNetworkClient((REMOTE, port), StreamProtocol(StringLineSerializer()), backend, **kw)
 
         async def connect() -> str:
             try:
-                if case.get("then") == "send":
+                if then == "send":
                     await client.send_packet("x")
+                elif then == "recv":
+                    await client.recv_packet()
+                elif then == "ctx":
+                    async with client:
+                        lines.append(f"entered connected {int(client.is_connected())}")
                 else:
                     await client.wait_connected()
                 return "ok"
-            except ClientClosedError:
-                return "closed"
-            except asyncio.CancelledError:
-                return "cancelled"
-            except ConnectionError as e:
-                return "connerr"
-            except OSError as e:
-                return "oserr"
             except BaseException as e:  # noqa: BLE001
-                return "exc:" + type(e).__name__
+                return _classify(e)
 
+        async def do_close() -> None:
+            # judged at the very moment the close starts to execute (its first statements run without suspending):
+            # had the connect already ended?
+            lines.append(f"early {int(t.done() or client.is_connected())}")
+            if how == "exit":
+                await client.__aexit__(None, None, None)
+            else:
+                await client.aclose()
+
+        def poke() -> None:
+            """a pending recv_packet() on a socket which is (still) open gets something to return"""
+            if udp:
+                try:
+                    sk = client.socket
+                    me, peer = sk.getsockname(), sk.getpeername()
+                except (AttributeError, OSError):
+                    return
+                for s in srv.values():
+                    if s.getsockname()[:2] == peer[:2]:
+                        with contextlib.suppress(OSError):
+                            s.sendto(b"wake\n", me)
+            else:
+                for c in accepted:
+                    if id(c) not in poked:
+                        poked.add(id(c))
+                        with contextlib.suppress(OSError):
+                            c.send(b"wake\n")
+
+        async def settle(task: asyncio.Task, limit: float, poking: bool) -> bool:
+            end = time.monotonic() + limit
+            while not task.done():
+                if poking:
+                    poke()
+                await asyncio.wait({task}, timeout=0.02)
+                if time.monotonic() > end:
+                    return task.done()
+            return True
+
+        def srv_live() -> int:
+            n = 0
+            for c in accepted:
+                try:
+                    while c.recv(65536):        # drain what the client sent; b"" = EOF = the client closed its socket
+                        pass
+                except BlockingIOError:
+                    n += 1
+                except OSError:
+                    pass
+            return n
+
+        base = env.open_fds()
         t = loop.create_task(connect())
-        if case.get("release", 0) < 0:
-            gate.set()
-        for _ in range(int(case.get("at", 1))):
+        closer: asyncio.Task | None = None
+        if g1 < 0:
+            gate1.set()
+        if g2 < 0:
+            gate2.set()
+        for turn in range(max(at if how != "none" else 0, g1, g2, 0) + 1):
+            if turn == at and how != "none":
+                if how in ("aclose", "exit"):
+                    closer = loop.create_task(do_close())
+                else:
+                    lines.append(f"early {int(t.done() or client.is_connected())}")
+                    pend = t.cancelling()
+                    if pend:
+                        lines.append(f"pendingscope {pend}")
+                    t.cancel()
+            if turn == g1:
+                gate1.set()
+            if turn == g2:
+                gate2.set()
             await asyncio.sleep(0)
-        closer = None
-        if case["how"] == "aclose":
+        gate1.set()
+        gate2.set()
+        if not await settle(t, deadline, then == "recv"):
+            wc = "hang"
+        else:
+            wc = "cancelled" if t.cancelled() else t.result()      # (cancelled before its first step: it never ran)
+        lines.append("wc " + wc)
+        if how == "none" and wc == "ok" and then != "ctx":
+            # the moment the connect has returned: exactly one socket of this process is open for it
+            lines.append(f"mid connected {int(client.is_connected() and not client.is_closing())}")
+            mid = env.open_fds() - base - {c.fileno() for c in accepted}
+            lines.append(f"mid fds +{len(mid)}")
+            if not udp:
+                end = time.monotonic() + deadline
+                while srv_live() != 1 and time.monotonic() < end:       # stable condition, polled
+                    await asyncio.sleep(0.005)
+                lines.append(f"mid srv-live {srv_live()}")
+        if closer is None:
+            # plain connect / cancelled connect: the client object is still usable; close it now
             closer = loop.create_task(client.aclose())
+        if not await settle(closer, deadline, False):
+            lines.append("close hang")
+        elif closer.cancelled():
+            lines.append("close exc:CancelledError")
+        elif closer.exception() is not None:
+            lines.append("close exc:" + type(closer.exception()).__name__)
         else:
+            lines.append("close ok")
+        if not t.done():
             t.cancel()
-        for _ in range(max(0, int(case.get("release", 0)))):
-            await asyncio.sleep(0)
-        gate.set()
-        try:
-            out = await asyncio.wait_for(asyncio.shield(t), 10.0)
-        except asyncio.TimeoutError:
-            out = "hang"
-        except asyncio.CancelledError:
-            out = "cancelled"
-        lines.append("wc " + out)
-        if closer is not None:
-            try:
-                await asyncio.wait_for(closer, 10.0)
-                lines.append("close ok")
-            except asyncio.TimeoutError:
-                lines.append("close hang")
-            except BaseException as e:  # noqa: BLE001
-                lines.append("close exc:" + type(e).__name__)
-        else:
-            # a cancelled connect: the client object is still usable; close it now
-            with contextlib.suppress(BaseException):
-                await asyncio.wait_for(client.aclose(), 10.0)
+            await settle(t, 2.0, False)
         for _ in range(50):
             await asyncio.sleep(0)
         lines.append(f"closing {int(client.is_closing())}")
         lines.append(f"connected {int(client.is_connected())}")
-        # server side: every accepted connection must see EOF (the client closed its socket)
-        still = 0
-        for c in accepted:
-            c.setblocking(False)
-            try:
-                while c.recv(65536):        # drain what the client sent; b"" = EOF = the client closed its socket
-                    pass
-            except BlockingIOError:
-                still += 1
-            except OSError:
-                pass
-        lines.append(f"srv-open {still}")
-        acc.cancel()
-        with contextlib.suppress(BaseException):
-            await acc
+        if not udp:
+            # server side: every accepted connection must see EOF (the client closed its socket)
+            lines.append(f"srv-open {srv_live()}")
+        for a in accs:
+            a.cancel()
+        for a in accs:
+            with contextlib.suppress(BaseException):
+                await a
         for c in accepted:
             c.close()
-        srv.close()
-        dead.close()
+        for s in list(srv.values()) + list(dead.values()):
+            s.close()
         await asyncio.sleep(0)
         after = env.open_fds()
         lines.append(f"fds +{len(after - before)}")
+        if after - before:
+            # do not let a leak of this case pollute the following ones
+            with contextlib.suppress(BaseException):
+                await asyncio.wait_for(client.aclose(), 2.0)
+            for _ in range(5):
+                await asyncio.sleep(0)
+            gc.collect()
 
     asyncio.run(main())
     return lines
 
 
+def _hung(lines: list[str]) -> bool:
+    """an outcome that depends on a wall-clock deadline (the polled server-side count included)"""
+    return ("wc hang" in lines or "close hang" in lines
+            or any(ln.startswith("mid srv-live ") and ln != "mid srv-live 1" for ln in lines))
+
+
+def run_client_case(case: dict) -> list[str]:
+    if _hangs["confirmed"] >= 3:
+        return _run_once(case, 2.0)          # the hang is established (replay exists): do not spend minutes on more of them
+    lines = _run_once(case, DEADLINE)
+    if _hung(lines):
+        again = _run_once(case, 2 * DEADLINE)
+        if not _hung(again):
+            raise core.InfraError(f"C19 client case missed a {DEADLINE:.0f} s deadline once and not when re-run "
+                                  f"(machine overloaded?): {case!r}")
+        _hangs["confirmed"] += 1
+        return again
+    return lines
+
+
+# ----------------------------------------------------------------------------------------------
+
+def _possible(case: dict, v6: bool) -> bool:
+    """some remote address accepts connections and attempts of its family can bind (or no local address was asked for)"""
+    addrs, local = _norm(case, v6)
+    for a in addrs:
+        if not a.startswith("ok"):
+            continue
+        fam = "v6" if a.endswith("6") else "v4"
+        if local is None or any(l == fam and (fam == "v4" or v6) for l in local):
+            return True
+    return False
+
+
 def oracle(case: dict, real: list[str]) -> str | None:
-    d = dict(ln.split(" ", 1) for ln in real if " " in ln)
+    d: dict[str, str] = {}
+    for ln in real:
+        if " " in ln:
+            k, v = ln.rsplit(" ", 1) if ln.startswith(("mid ", "cfg ")) else ln.split(" ", 1)
+            d[k] = v
+    how = case["how"]
+    proto = case.get("proto", "tcp")
     if d.get("wc") == "hang" or "close hang" in real:
-        return "the connect / the close did not finish"
+        return "client-hang: the connect / the close did not finish"
     if any(ln.startswith("close exc:") for ln in real):
-        return f"aclose() failed: {[ln for ln in real if ln.startswith('close exc:')][0]}"
-    if case["how"] == "aclose":
+        return f"client-close-failed: aclose() failed: {[ln for ln in real if ln.startswith('close exc:')][0]}"
+    if d.get("wc", "").startswith("exc:"):
+        return f"client-unexpected-exception: the pending call raised {d['wc'][4:]}"
+    early = d.get("early") == "1"
+    leak = "" if d.get("fds") == "+0" else f" (descriptors still open at the end: fds {d.get('fds')})"
+    if how in ("aclose", "exit") and not early:
         # the close was issued while the connect was in progress: the connect is cancelled, nothing stays open, the failure
         # is reported to whoever was connecting (ClientClosedError), never a connected client on a closed object
-        if d.get("closing") != "1":
-            return "client.is_closing() is false after aclose() returned"
-        if d.get("connected") == "1":
-            return "the client is connected although aclose() returned while the connect was in progress"
         if d.get("wc") == "ok":
-            return "the pending connect completed successfully although the client had been closed meanwhile"
+            return (f"client-connect-succeeded-after-close: the pending call completed successfully although the {proto} "
+                    "client had been closed while the connect was in progress: the failure is not reported" + leak)
+        if d.get("connected") == "1":
+            return (f"client-connected-after-close: the {proto} client is connected although aclose() returned while the "
+                    "connect was in progress" + leak)
+    deferred: str | None = None
+    if how == "cancel" and not early and d.get("wc") == "ok":
+        if "pendingscope" not in d or proto != "tcp":
+            return (f"client-lost-cancel: the task connecting the {proto} client was cancelled while the connect was in "
+                    "progress (no cancel request of a cancel scope of the race outstanding), yet the call returned normally")
+        # with a cancel request of a scope of the race outstanding on the task at the moment of the task.cancel() this is the
+        # listed finding (KNOWN_FINDINGS: lost-cancel,scope-cancel-request-outstanding — the same create_stream_connection()
+        # and the same window, reached through AsyncTCPNetworkClient).  Reported under the same signature as the race layer
+        # does (`lost-cancel:` -> props/c19.known_key), and only after every other clause: an unlisted failure of the same
+        # run is reported first.
+        COUNT["lost_cancel_known_window"] += 1
+        deferred = ("lost-cancel: (client layer) the task connecting the tcp client was cancelled while a cancel request of a "
+                    "cancel scope of the connection race was outstanding on it, yet the connect went on and the call returned "
+                    "normally (statement: cancelled at any point => every socket closed and the failure reported)")
+    if d.get("closing") != "1":
+        return "client-not-closing: client.is_closing() is false after aclose() returned" + leak
+    if how == "none":
+        v6 = d.get("cfg v6") == "1"
+        if _possible(case, v6):
+            if d.get("wc") != "ok":
+                return (f"client-possible-connection-failed: the {proto} connect failed ({d.get('wc')}) although an address "
+                        "accepts connections and a local address of its family can be bound (or none was asked for)")
+            if case.get("then") != "ctx":
+                if d.get("mid connected") != "1":
+                    return "client-not-connected: the connect returned normally but the client is not connected"
+                if d.get("mid fds") != "+1":
+                    return (f"client-sockets-after-connect: the connect returned; descriptors opened by it and still open: "
+                            f"{d.get('mid fds')} (exactly one expected)")
+                if proto == "tcp" and d.get("mid srv-live") != "1":
+                    return (f"client-sockets-after-connect: the connect returned; {d.get('mid srv-live')} connection(s) open on "
+                            "the server side (exactly one expected: every other socket of the race is closed)")
+        elif d.get("wc") == "ok":
+            return "client-impossible-connection: the connect succeeded although no address could be connected"
     if d.get("srv-open") not in (None, "0"):
-        return f"{d.get('srv-open')} connection(s) still open on the server side after the client was closed / the connect cancelled"
+        return (f"client-server-side-open: {d.get('srv-open')} connection(s) still open on the server side after the client "
+                "was closed / the connect cancelled")
     if d.get("fds") != "+0":
-        return f"descriptors leaked: fds {d.get('fds')}"
-    return None
+        return f"client-leak: descriptors leaked: fds {d.get('fds')}"
+    return deferred
 
+
+# ----------------------------------------------------------------------------------------------
 
 def gen_case(rng) -> dict[str, Any]:
-    n = rng.randint(1, 3)
-    addrs = [rng.choice(["ok", "refused"]) for _ in range(n)]
-    if rng.random() < 0.7 and "ok" not in addrs:
+    proto = rng.choice(["tcp", "udp"])
+    n = rng.choice([1, 2, 2, 3])
+    pool = ["ok", "refused", "ok", "refused", "ok6", "refused6"]
+    addrs = [rng.choice(pool) for _ in range(n)]
+    if rng.random() < 0.7 and not any(a.startswith("ok") for a in addrs):
         addrs[rng.randrange(n)] = "ok"
-    return {"api": "client", "addrs": addrs, "how": rng.choice(["aclose", "aclose", "cancel"]), "at": rng.randint(0, 6),
-            "release": rng.choice([-1, 0, 0, 1, 2, 3]), "then": rng.choice(["none", "none", "send"])}
+    local = None
+    r = rng.random()
+    if r < 0.2:
+        local = ["v6", "v4"] if rng.random() < 0.5 else ["v4", "v6"]
+    elif r < 0.4:
+        local = [rng.choice(["v4", "v6", "v4bad", "v6bad"]) for _ in range(rng.randint(1, 3))]
+    how = rng.choice(["aclose", "aclose", "exit", "cancel", "none"])
+    then = rng.choice(["none", "none", "send", "recv", "ctx"])
+    case: dict[str, Any] = {"api": "client", "proto": proto, "addrs": addrs, "local": local, "how": how, "then": then}
+    if proto == "tcp":
+        case["hed"] = rng.choice([None, None, 0])
+    if how == "none":
+        # plain connect: a non-first address is the one that works, most of the time
+        if n >= 2 and rng.random() < 0.6:
+            addrs[0] = rng.choice(["refused", "refused6"]) if local is None else "refused"
+            addrs[-1] = "ok"
+        case.update(at=0, g1=rng.choice([-1, 0, 1]), g2=rng.choice([-1, 0, 2]))
+        return case
+    # positions of the two resolver answers and of the interruption (loop turns after the start of the connect)
+    g1 = rng.choice([-1, -1, 0, 1, 2, 3, 5])
+    g2 = g1 if local is None else max(g1, 0) + rng.choice([0, 0, 1, 2, 4])
+    top = max(g1, g2, 0) + (14 if proto == "tcp" else 6)
+    at = rng.randint(0, top)
+    case.update(at=at, g1=g1, g2=g2)
+    return case
 
 
 def corpus() -> list[dict]:
@@ -183,4 +505,21 @@ def corpus() -> list[dict]:
             for rel in (0, 2):
                 out.append({"api": "client", "addrs": ["refused", "ok"], "how": how, "at": at, "release": rel, "then": "none"})
     out.append({"api": "client", "addrs": ["ok"], "how": "aclose", "at": 2, "release": 1, "then": "send"})
+    # datagram twin: close / leave the context / cancel while the resolver has not answered yet, every way of starting
+    for then in ("none", "send", "recv", "ctx"):
+        for how in ("aclose", "exit", "cancel"):
+            out.append({"api": "client", "proto": "udp", "addrs": ["refused", "ok"], "local": None, "how": how, "then": then,
+                        "at": 2, "g1": 4, "g2": 4})
+    # interruption between the two name resolutions (remote answered, local pending) and right after both
+    for proto in ("tcp", "udp"):
+        for at in (1, 3, 4, 5):
+            out.append({"api": "client", "proto": proto, "addrs": ["refused", "ok"], "local": ["v6", "v4"], "how": "aclose",
+                        "then": "recv", "at": at, "g1": 0, "g2": 3})
+    # plain connect, local address by name with a family the remote host does not have, second address is the good one
+    for proto in ("tcp", "udp"):
+        for local in (["v6", "v4"], ["v4bad", "v6", "v4"]):
+            out.append({"api": "client", "proto": proto, "addrs": ["refused", "ok"], "local": local, "how": "none",
+                        "then": "none", "at": 0, "g1": 0, "g2": 1})
+    out.append({"api": "client", "proto": "tcp", "addrs": ["ok", "ok6", "ok"], "local": None, "hed": 0, "how": "none",
+                "then": "send", "at": 0, "g1": -1, "g2": -1})
     return out
